@@ -9,6 +9,7 @@ import (
 	"os"
 	"path/filepath"
 	"regexp"
+	"strconv"
 
 	"github.com/reedom/convergen/pkg/builder"
 	"github.com/reedom/convergen/pkg/builder/model"
@@ -100,8 +101,28 @@ func NewParser(srcPath, dstPath string) (*Parser, error) {
 		file:    fileSrc,
 		pkg:     pkgs[0],
 		opts:    option.NewOptions(),
-		imports: util.NewImportNames(fileSrc.Imports),
+		imports: importNames(fileSrc, pkgs[0]),
 	}, nil
+}
+
+// importNames returns the names by which the file refers to its imports. An import
+// without an explicit name goes by the name its package declares, which need not be
+// the last element of its path.
+func importNames(file *ast.File, pkg *packages.Package) util.ImportNames {
+	imports := util.NewImportNames(file.Imports)
+	for _, spec := range file.Imports {
+		if spec.Name != nil {
+			continue
+		}
+		pkgPath, err := strconv.Unquote(spec.Path.Value)
+		if err != nil {
+			continue
+		}
+		if imp, ok := pkg.Imports[pkgPath]; ok && imp.Name != "" {
+			imports[pkgPath] = imp.Name
+		}
+	}
+	return imports
 }
 
 // Parse parses convergen annotations in the source code.
